@@ -1,6 +1,51 @@
-"""C03 — decided on the serial dependency engine; see deps_check.py (shared body) and DESIGN §7."""
+"""C03 — decided on the serial dependency engine; see deps_check.py (shared body) and DESIGN §7.  Plus one directed
+parallel scenario: a checksummed target that stamps early and is still running while a second dependent asks for it."""
 import deps_check
 from c_deps_common import *
+from common import *
+from proj import Project
+import sched
+
+
+def parallel_forward(viol):
+    """all -> {D1 -> T, D2 -> {d2src, T}}, T (checksummed) -> src.  T stamps and then keeps running; D2 (dirty for a
+    reason of its own) asks for T inside that window while the out-of-band rebuild started for D1 holds T's lock.
+    When the checksum of T changes, D2 must be built from the new T before `redo -j4 all` returns success."""
+    pr = Project()
+    try:
+        pr.write("T.do", 'redo-ifchange src\ncat src >"$3"\nredo-stamp <"$3"\nsleep 0.9\n')
+        pr.write("D1.do", "redo-ifchange T\ncat T\n")
+        pr.write("D2.do", "redo-ifchange d2src\nsleep 0.4\nredo-ifchange T\ncat d2src T\n")
+        pr.write("all.do", "redo-ifchange D1 D2\n")
+        pr.write("src", "s1\n")
+        pr.write("d2src", "x1\n")
+        r0 = sched.run_cmds(pr, [["redo", "-j4", "all"]], timeout=60)[0]
+        pr.write("src", "s2\n")
+        pr.write("d2src", "x2\n")
+        r1 = sched.run_cmds(pr, [["redo", "-j4", "all"]], timeout=60)[0]
+        d1, d2 = pr.read("D1"), pr.read("D2")
+        r2 = sched.run_cmds(pr, [["redo-ifchange", "all"]], timeout=60)[0]
+        problems = []
+        if r0.rc != 0 or r1.rc != 0:
+            problems.append("exit statuses %s %s" % (r0.rc, r1.rc))
+        if d1 != b"s2\n":
+            problems.append("D1 holds %r (expected the new T)" % d1)
+        if d2 != b"x2\ns2\n":
+            problems.append("D2 holds %r after `redo -j4 all` returned %s (expected x2 + the new T)" % (d2, r1.rc))
+        if pr.read("D2") != b"x2\ns2\n":
+            problems.append("and a following redo-ifchange all leaves it so")
+        if problems:
+            p = write_replay("C03", "parallel-forward", dict(kind="impl-monitor", problems=problems, stderr=r1.err[-1500:],
+                                                             scenario="T.do: redo-ifchange src; cat src >$3; redo-stamp <$3; sleep 0.9.  D1: redo-ifchange T.  D2: redo-ifchange d2src; sleep 0.4; redo-ifchange T.  build; edit src and d2src; redo -j4 all"))
+            viol.append(Violation("C03", p, "changed checksum not forwarded within the command: " + "; ".join(problems)))
+    finally:
+        pr.destroy()
+
 
 def run(ctx):
-    return deps_check.run_property(ctx, "C03", FEATURES["C03"], NCASES["C03"], WANT["C03"], known_matcher=KNOWN.get("C03"))
+    cov = deps_check.run_property(ctx, "C03", FEATURES["C03"], NCASES["C03"], WANT["C03"], known_matcher=KNOWN.get("C03"))
+    viol = ctx.setdefault("violations", [])
+    if not viol and not ctx.get("replay"):
+        parallel_forward(viol)
+        cov["directed_scenarios"] = 1
+    return cov
